@@ -261,3 +261,68 @@ prop(
                 "thorough": "all ordered tables of <= 4 registrations x 3 prefixes x all requests of the alphabet"},
     floors={"any": {"dispatches_to_a_handler": 10000, "dispatches_without_handler": 10000, "duplicate_registrations": 100}},
 )
+
+prop(
+    "C07",
+    title="A response is delivered only to the connection that sent its request, in order",
+    level="exploration",
+    technique="runtime monitoring: tagged request/response histories on the real server and real sockets; per-client attribution of every received byte by an independent response reader",
+    design_ref="DESIGN.md §3 C07",
+    engine="server-simulator",
+    rule="Bounded-exhaustive: every sequence of enabled actions up to depth 7 (quick, 2 clients) / 9 (thorough, 3 clients) over "
+         "{connect (incl. reconnect), send whole/first part/rest/two pipelined, close, shutdown RD/WR, drain, poll (only when the "
+         "epoll fd is ready), respond to any outstanding request}; every prefix is executed from a fresh server and judged. Random: "
+         "histories of 20-90 actions with 4 clients biased to close-with-requests-in-flight -> reconnect -> late answer. Each "
+         "history ends with a bounded settle (poll while ready, drain). evaluations = histories executed; distinct_nontrivial = "
+         "distinct histories in which the application supplied at least one response.",
+    assumptions=["client/server socket pairs are attributed with getpeername() on abstract client addresses (kernel observation, not a hook)",
+                 "500 responses are tolerated; Err results of requests() are counted but judged by C09"],
+    floors={"any": {"requests_yielded": 5000, "responses_supplied": 3000, "application_responses_received_and_attributed": 1000,
+                    "closes_with_requests_in_flight": 500,
+                    "histories_reusing_descriptor_of_connection_closed_with_requests_in_flight": 100}},
+)
+
+prop(
+    "C08",
+    title="Well-behaved clients: each request yielded once and answered; no stall, no spin",
+    level="exploration",
+    technique="runtime monitoring: exactly-once yield, bounded-progress settle loop gated on epoll readiness, no-spin at quiescence and flush delivery, over histories of the real server with real sockets",
+    design_ref="DESIGN.md §3 C08",
+    engine="server-simulator",
+    rule="Bounded-exhaustive: every sequence of enabled actions up to depth 9 (quick) / 11 (thorough) for 2 clients over {connect, "
+         "send whole GET / first part / rest / two pipelined / Expect headers then body, drain, poll (only when ready), respond to "
+         "any outstanding request, respond to all newest-first}, and depth 8/10 with PUT bodies and flush_outgoing_writes in the "
+         "alphabet; random histories of 20-120 actions with up to 4 clients, 5000-byte request bodies and responses up to 1 MiB, "
+         "with and without a registered kill switch, some servers bound to a path. Every history ends with the settle loop, the "
+         "completeness check, the no-spin check, then completion of partially sent requests and a second settle. evaluations = "
+         "histories executed; distinct_nontrivial = distinct histories in which at least one request was yielded.",
+    assumptions=["the settle bound is 80 + 8 x (requests + responses + KiB outstanding) polling calls; hitting it with the epoll fd still ready is reported as spin/no-progress",
+                 "flush is only issued while every connection's unread output is below 100000 bytes (documented limit of that call)",
+                 "mid-history idleness is not judged: a client that has not drained may legitimately hold the server back"],
+    floors={"any": {"requests_yielded": 20000, "responses_received_in_full": 20000, "quiescent_states_checked_for_spin": 5000,
+                    "quiescent_states_with_partial_request": 500, "flush_calls": 1000, "responses_delivered_by_flush": 1000,
+                    "large_responses_received": 500, "bodies_sent_after_100_continue": 500,
+                    "combo_state1_OUT_pendingout_unreadin_inflight": 100, "combo_state0_IN_noout_unreadin_inflight": 100}},
+)
+
+prop(
+    "C09",
+    title="No client can wedge the server or starve other clients",
+    level="fault_enumeration",
+    technique="runtime monitoring: witness round trips and Ok-only polling under enumerated client misbehaviour and delayed answers; release of dead connections observed on the process's socket table",
+    design_ref="DESIGN.md §3 C09",
+    engine="server-simulator",
+    rule="Faults per hostile client: send valid / two pipelined / invalid / partial / oversize-declaring bytes, shutdown(RD), "
+         "shutdown(WR), close, never reading (with 1 MiB responses owed), reconnect; application answers to hostile requests "
+         "delayed arbitrarily. Bounded-exhaustive over these actions + poll + witness round trip (macro step) to depth 6 (quick, "
+         "1 hostile) / 8 (thorough, 2 hostile); random histories of 15-70 actions with 3 hostile clients; capacity variant: 10 "
+         "connections, an 11th/12th client connects and vanishes before the server polls. evaluations = histories; "
+         "distinct_nontrivial = distinct histories in which a hostile client acted.",
+    assumptions=["a witness round trip must complete within 16 polling calls made only while the epoll fd is ready",
+                 "release is required (within 2 polling calls) only for clients that closed completely and whose yielded requests are all answered; "
+                 "spinning while a dead connection is still owed answers is not flagged"],
+    floors={"any": {"witness_round_trips_completed": 20000, "dead_connections_reaped": 5000,
+                    "round_trips_while_a_dead_connection_is_owed_answers": 1000, "round_trips_while_a_client_has_shut_down_reading": 1000,
+                    "round_trips_while_a_client_ignores_a_large_response": 500, "histories_vanishing_refused_client": 500,
+                    "histories_exhaustive": 1000}},
+)
